@@ -249,6 +249,11 @@ def handle (toks : List String) : Option String :=
         match applyEventIds l e.2 with
         | none => pure "err raises"
         | some r => pure ("ok " ++ showNames r)).orElse fun _ => some "err parse"
+    | ["classify", g] => (do
+        let gr ← parseGraph g
+        if !graphTimesOk gr then pure "err empty_deme" else
+        let l := classifyEvents gr
+        pure ("ok " ++ joinE (l.toList.map fun (p : Rat × DEvt) => showRat p.1 ++ "@" ++ showEvt p.2) ";")).orElse fun _ => some "err parse"
     | ["gevents", g, lib, sd] => (do
         let gr ← parseGraph g; let evs ← parseEvents lib; let names ← parseNames sd
         if !graphTimesOk gr then pure "err empty_deme" else
